@@ -105,16 +105,20 @@ def cli_stream(ck, tmp, keys, envs):
         e = i % len(envs)
         kn = keys.for_alg(alg, i)
         kid_text = hex(kid) if i % 2 else str(kid)
-        jobs.append((tmp, f"cli{i}", envs[e][0], kn, kid, alg, keys.dir, None, kid_text))
-        meta.append((e, kn, alg, kid, kid_text))
+        # the spellings of the key directory: absolute path, JSON, and — run from the key directory — '.' and the empty string
+        form = i % 4
+        ctx, cwd = [(keys.dir, None), (json.dumps({"keys_directory": keys.dir}), None), (".", keys.dir), ("", keys.dir)][form]
+        jobs.append((tmp, f"cli{i}", envs[e][0], kn, kid, alg, ctx, None, kid_text, cwd))
+        meta.append((e, kn, alg, kid, kid_text, form))
     res = sl.parallel(sl.cli_single, jobs)
     fails, reqs, keep = [], [], []
-    for (e, kn, alg, kid, kid_text), (rc, out) in zip(meta, res):
+    for (e, kn, alg, kid, kid_text, form), (rc, out) in zip(meta, res):
         data = envs[e][0]
-        ck.count("cli", (e, alg, kid, kid_text), nontrivial=(rc == 0), sample={"envelope_bytes": len(data), "alg": alg, "key_id": kid_text, "via": "python -m suit_generator.cli sign single-level"})
+        ck.count("cli", (e, alg, kid, kid_text), nontrivial=(rc == 0), sample={"envelope_bytes": len(data), "alg": alg, "key_id": kid_text, "via": "python -m suit_generator.cli sign single-level",
+                                                                                "context": ["absolute path", "JSON", "'.' from the key directory", "'' from the key directory"][form]})
         why = f"CLI exit status {rc}" if rc != 0 else oracle_signed(data, out, keys, kn, alg, kid)
         if why:
-            fails.append(rec("cli single-level", keys, data, kn, alg, kid, why, key_id_text=kid_text))
+            fails.append(rec("cli single-level", keys, data, kn, alg, kid, why, key_id_text=kid_text, context_form=form))
             continue
         reqs.append(req_single(data, keys, kn, kid, alg, keys.dir, "error", out))
         keep.append(((e, alg, kid), ("ok", out)))
@@ -425,7 +429,9 @@ def replay(path):
             tries = 1 if inp["alg"] not in KEY_SIZE or inp.get("case") else (8 if op.startswith("cli") else 64)
             for attempt in range(tries):
                 if op.startswith("cli"):
-                    rc, out = sl.cli_single(tmp, "replay", data, inp["key_name"], inp["key_id"], inp["alg"], keys.dir, None, inp.get("key_id_text"))
+                    form = inp.get("context_form", 0)
+                    ctx, cwd = [(keys.dir, None), (json.dumps({"keys_directory": keys.dir}), None), (".", keys.dir), ("", keys.dir)][form]
+                    rc, out = sl.cli_single(tmp, "replay", data, inp["key_name"], inp["key_id"], inp["alg"], ctx, None, inp.get("key_id_text"), cwd)
                     r = ("ok", out) if rc == 0 else ("exn", f"exit {rc}", out)
                 else:
                     r = sl.lib_single(tmp, data, inp["key_name"], inp["key_id"], inp["alg"], keys.dir, "error")
